@@ -19,16 +19,26 @@ package main
 
 import (
 	"bytes"
+	"context"
 	"encoding/hex"
+	"encoding/json"
 	"fmt"
+	"io/ioutil"
 	"os"
+	"os/exec"
+	"strconv"
 	"strings"
+	"time"
+
+	log "github.com/sirupsen/logrus"
 
 	dbm "github.com/bytom/bytom/database/leveldb"
+	"github.com/bytom/bytom/protocol/bc"
+	cl "verifharness/chainlib"
 	. "verifharness/hlib"
 )
 
-func main() { Main("C20", runC20, nil) }
+func main() { Main("C20", runC20, map[string]func([]string) int{"node": childNode}) }
 
 // ---- operations ------------------------------------------------------------
 
@@ -820,6 +830,140 @@ func exhaustiveAlphabet() []opT {
 	return al
 }
 
+// ---- the consequence for a node: same chain state on either backend -----------------
+//
+// Second sentence of the property.  A child process (a panic in the chain's goroutine would
+// kill the harness) starts one protocol.Chain on GoLevelDB and one on MemDB, feeds both the
+// same blocks (a trunk crossing epoch boundaries, optionally a side block), compares the
+// state dumps and checkpoints, then restarts a chain on the same MemDB (NewChain reloads
+// the checkpoints with IteratorPrefixWithStart).  Only a difference between the two nodes
+// counts; if the LevelDB node itself fails the case is inconclusive.
+
+type nodeReport struct {
+	LdbStart     string `json:"leveldb_start"`
+	MemStart     string `json:"memdb_start"`
+	ProcessDiff  string `json:"process_diff"`
+	DumpsEqual   bool   `json:"dumps_equal"`
+	CpEqual      bool   `json:"checkpoints_equal"`
+	MemRestart   string `json:"memdb_restart"`
+	RestartEqual bool   `json:"restart_dump_equal"`
+	Blocks       int    `json:"blocks"`
+	Side         bool   `json:"side_block"`
+}
+
+func errStr(err error) string {
+	if err == nil {
+		return ""
+	}
+	return "error"
+}
+
+func childNode(args []string) int {
+	log.SetOutput(ioutil.Discard)
+	seed, _ := strconv.ParseUint(args[0], 10, 64)
+	r := NewRng(seed)
+	rep := nodeReport{}
+	emit := func() int {
+		js, _ := json.Marshal(rep)
+		fmt.Println(string(js))
+		return 0
+	}
+	w := cl.Init(cl.DefaultOptions())
+	dir, err := os.MkdirTemp("", "verif-c20-node")
+	if err != nil {
+		return 2
+	}
+	defer os.RemoveAll(dir)
+	nl, err := cl.NewNode(dir)
+	rep.LdbStart = errStr(err)
+	if err != nil {
+		return emit()
+	}
+	defer nl.Close()
+	nm, err := cl.NewNodeOnDB("", dbm.NewMemDB())
+	rep.MemStart = errStr(err)
+	if err != nil {
+		return emit()
+	}
+	n := 5 + r.Intn(12)
+	trunk := w.Trunk(w.Genesis, n)
+	rep.Blocks = n
+	var hs []bc.Hash
+	for _, b := range trunk {
+		o1, e1 := nl.Process(b.Block)
+		o2, e2 := nm.Process(b.Block)
+		if o1 != o2 || (e1 == nil) != (e2 == nil) {
+			rep.ProcessDiff = fmt.Sprintf("block at height %d: leveldb orphan=%v err=%v, memdb orphan=%v err=%v", b.Block.Height, o1, e1 != nil, o2, e2 != nil)
+			return emit()
+		}
+		hs = append(hs, b.Hash)
+	}
+	if r.Bool() {
+		rep.Side = true
+		side := w.NewBlock(trunk[r.Intn(len(trunk)-1)], nil, cl.BlockOpt{Skip: 1})
+		nl.Process(side.Block)
+		nm.Process(side.Block)
+		hs = append(hs, side.Hash)
+	}
+	d1 := cl.JSON(nl.Dump(nil, hs, uint64(n+2)))
+	rep.DumpsEqual = d1 == cl.JSON(nm.Dump(nil, hs, uint64(n+2)))
+	rep.CpEqual = cl.JSON(nl.Checkpoints(hs)) == cl.JSON(nm.Checkpoints(hs))
+	nm2, err := cl.NewNodeOnDB("", nm.DB)
+	rep.MemRestart = errStr(err)
+	if err == nil {
+		rep.RestartEqual = cl.JSON(nm2.Dump(nil, hs, uint64(n+2))) == d1
+	}
+	return emit()
+}
+
+func runNodeCases(c *Ctx, n int) {
+	for i := 0; i < n; i++ {
+		seed := c.Rng.Next() % 1000000
+		ctx, cancel := context.WithTimeout(context.Background(), 120*time.Second)
+		out, err := exec.CommandContext(ctx, os.Args[0], "child", "node", fmt.Sprint(seed)).CombinedOutput()
+		cancel()
+		var rep nodeReport
+		parsed := false
+		for _, line := range strings.Split(string(out), "\n") {
+			if strings.HasPrefix(line, "{") && json.Unmarshal([]byte(line), &rep) == nil {
+				parsed = true
+			}
+		}
+		desc := map[string]interface{}{"stream": "node", "child_seed": seed, "report": rep}
+		c.Stats.Count("stream.node")
+		switch {
+		case !parsed:
+			// the child died: a Go panic trace names the culprit; only the memory backend's is ours
+			tail := string(out)
+			if len(tail) > 1500 {
+				tail = tail[len(tail)-1500:]
+			}
+			desc["child_error"] = fmt.Sprint(err)
+			desc["child_output_tail"] = tail
+			if strings.Contains(string(out), "mem_db.go") {
+				c.Stats.Fail("class=node-divergence: the node process dies inside the memory backend", desc)
+				c.Stats.Count("oracle.fail")
+			} else {
+				c.Stats.Count("node.inconclusive")
+			}
+		case rep.LdbStart != "":
+			c.Stats.Count("node.inconclusive")
+		case rep.MemStart != "":
+			c.Stats.Fail("class=node-divergence: a chain starts on leveldb but not on memdb", desc)
+			c.Stats.Count("oracle.fail")
+		case rep.ProcessDiff != "" || !rep.DumpsEqual || !rep.CpEqual:
+			c.Stats.Fail("class=node-divergence: same blocks, different chain state on memdb and leveldb: "+rep.ProcessDiff, desc)
+			c.Stats.Count("oracle.fail")
+		case rep.MemRestart != "" || !rep.RestartEqual:
+			c.Stats.Fail("class=node-divergence: a chain restarted on the same memdb does not come back to the same state", desc)
+			c.Stats.Count("oracle.fail")
+		default:
+			c.Stats.Count("node.same-state")
+		}
+		c.Stats.Case(fmt.Sprintf("node-%d", seed), parsed && rep.DumpsEqual)
+	}
+}
+
 // ---- main -------------------------------------------------------------------------
 
 func sizeBucket(n int) string {
@@ -846,7 +990,7 @@ func runC20(c *Ctx) error {
 	defer env.close()
 	g := &gen{c: c, r: c.Rng}
 
-	record := func(cs *caseT, toModel bool) {
+	record := func(cs *caseT, toModel bool, key string) {
 		bad := cs.oracle()
 		if bad != "" {
 			c.Stats.Fail(bad, cs.describe())
@@ -882,7 +1026,10 @@ func runC20(c *Ctx) error {
 			}
 			c.Stats.Count("op." + kindName[o.kind])
 		}
-		c.Stats.Case(cs.coqOps(), nontrivial)
+		if key == "" {
+			key = cs.coqOps()
+		}
+		c.Stats.Case(key, nontrivial)
 		if toModel {
 			var id int
 			if bad == "" {
@@ -910,7 +1057,7 @@ func runC20(c *Ctx) error {
 		cs := &caseT{stream: "fixed", ops: ops}
 		env.runCase(cs)
 		c.Stats.Count("stream.fixed")
-		record(cs, true)
+		record(cs, true, "")
 	}
 
 	total := c.N(2000, 6000)
@@ -919,11 +1066,13 @@ func runC20(c *Ctx) error {
 		env.runCase(cs)
 		c.Stats.Count("stream." + cs.stream)
 		c.Stats.Count("case.len." + sizeBucket(len(cs.ops)))
-		record(cs, true)
+		record(cs, true, "")
 		if i%397 == 5 || (len(c.Stats.Samples) < 2 && len(cs.ops) >= 6 && len(cs.ops) <= 12) {
 			c.Stats.Sample(cs.describe())
 		}
 	}
+
+	runNodeCases(c, c.N(2, 6))
 
 	if c.Thorough() {
 		// every sequence of length <= 3 over the alphabet (4 keys sharing prefixes, nil/empty/non-empty
@@ -936,23 +1085,23 @@ func runC20(c *Ctx) error {
 		count := 0
 		const modelEvery = 251
 		for pi, pre := range preambles {
-			var rec func(seq []opT, depth int)
-			rec = func(seq []opT, depth int) {
+			var rec func(seq []opT, path string, depth int)
+			rec = func(seq []opT, path string, depth int) {
 				if len(seq) > 0 {
 					cs := &caseT{stream: fmt.Sprintf("exhaustive-%d", pi), ops: append(append([]opT{}, pre...), seq...)}
 					env.runCase(cs)
 					count++
 					c.Stats.Count("stream.exhaustive")
-					record(cs, count%modelEvery == 0)
+					record(cs, count%modelEvery == 0, path)
 				}
 				if depth == 0 {
 					return
 				}
-				for _, o := range al {
-					rec(append(seq, o), depth-1)
+				for i, o := range al {
+					rec(append(seq, o), fmt.Sprintf("%s.%d", path, i), depth-1)
 				}
 			}
-			rec(nil, 3)
+			rec(nil, fmt.Sprintf("exhaustive-%d", pi), 3)
 		}
 		c.Stats.Exhaustive = true
 		c.Stats.Extra["exhaustive_alphabet_size"] = len(al)
@@ -966,6 +1115,6 @@ func runC20(c *Ctx) error {
 		d["get.present"] == 0 || d["get.present-empty"] == 0 || d["get.absent"] == 0 || d["op.batch-write"] < total/4) {
 		return fmt.Errorf("degenerate input stream: %v", d)
 	}
-	c.Stats.Rule = "a case is a sequence of up to 40 operations of dbm.DB (get, set/setSync, delete/deleteSync, batch set/delete/write/new, Iterator, IteratorPrefix, forward IteratorPrefixWithStart) run on a fresh MemDB and on an emptied GoLevelDB; keys from a small pool sharing prefixes (\"\", a, ab, ab\\x00, a\\xff, a\\xff\\xff, \\xff..., b, ...) plus random keys over {00,a,b,fe,ff}; nil, empty, short and long values; prefixes that are keys / proper prefixes / nil / empty / key+byte; starts nil, empty, equal to / before / inside / at the limit of / beyond the prefix range. distinct = distinct operation sequence; non-trivial = some iteration yields at least one entry or some get finds a key. Oracle: every observable (get: nil or bytes; iteration: Key/Value of the fresh iterator, Key/Value after each successful Next, Next staying false) is equal on the two real backends, no panic."
+	c.Stats.Rule = "a case is a sequence of up to 40 operations of dbm.DB (get, set/setSync, delete/deleteSync, batch set/delete/write/new, Iterator, IteratorPrefix, forward IteratorPrefixWithStart) run on a fresh MemDB and on an emptied GoLevelDB; keys from a small pool sharing prefixes (\"\", a, ab, ab\\x00, a\\xff, a\\xff\\xff, \\xff..., b, ...) plus random keys over {00,a,b,fe,ff}; nil, empty, short and long values; prefixes that are keys / proper prefixes / nil / empty / key+byte; starts nil, empty, equal to / before / inside / at the limit of / beyond the prefix range. distinct = distinct operation sequence; non-trivial = some iteration yields at least one entry or some get finds a key. Plus a few node-level cases (child process): one protocol.Chain on each backend fed the same blocks must end in the same state dump and checkpoints, and a chain restarted on the same MemDB must come back to it. Oracle: every observable (get: nil or bytes; iteration: Key/Value of the fresh iterator, Key/Value after each successful Next, Next staying false) is equal on the two real backends, no panic."
 	return c.Cases.Write(c.Out, "From Coq Require Import List NArith Bool.\nFrom C20 Require Import Model Run.\nImport ListNotations.\nOpen Scope N_scope.\n", "bool", "Bool.eqb")
 }
